@@ -6,7 +6,7 @@ MANIFEST = dict(
     text="Lean theorems on the timed model (timers and tickers may fire late, never early - the only assumption): Delay's k-th delivery is the k-th emission, no sooner than its delay later "
          "(pigeonhole over the AfterFunc callbacks) and in emission order; Interval / IntervalWithInitial / Timer / RangeWithInterval emit 0,1,2,... with value k not before k+1 periods "
          "(initial + k periods); Timeout errors only after a full quiet period measured from the end of the last forwarded Next and never after a forwarded terminal; ThrottleTime's consecutive "
-         "passes are more than the window apart; sampling gives at most one value per tick, always the latest; time-buffers emit only source values in source order; silence after teardown. "
+         "passes are more than the window apart; sampling gives at most one value per tick, always the latest; time-buffers emit only source values in source order; silence after teardown, and after context cancellation as a count (at most 8 further ticks + flush + terminal + one per late source call - a stream that keeps delivering is rejected). "
          "Tie (weaker than equality, stated honestly): the real operators are run in real time over seeded timelines and the proved acceptor (`accepts -> clause`, and `model run -> accepts`) "
          "must ACCEPT every observed timed trace - acceptance of observed traces, not equality of outputs; only lower bounds on time and order/count relations are judged, so machine load cannot raise an alarm.",
     technique="Lean 4 proof on a timed model + acceptance of real-time traces by a proved acceptor",
@@ -31,8 +31,10 @@ def verdict(d):
     return (flag(d), d.get('accept'))
 
 
-def judge(ctx, rows, stats):
-    """every observed trace must be accepted; returns {op: [(case, go, lean)]} of rejected ones"""
+def judge(ctx, rows, stats, classes):
+    """every observed trace must be accepted; returns {op: [(case, go, lean)]} of rejected ones.
+    `classes`: {(op, why): finding} - rejections that fall exactly into the class of a listed known
+    finding whose witness cannot be replayed on demand (a race); they are collected in ctx.class_hits."""
     bad = {}
     for c, g, l in rows:
         ctx.evaluations += 1
@@ -56,6 +58,10 @@ def judge(ctx, rows, stats):
         if len(ctx.samples) < 4 and ctx.evaluations % 997 == 1:
             ctx.samples.append({'case': c[:600], 'impl': g, 'model': l})
         if verdict(gd) != verdict(ld) or gd.get('accept') != '1':
+            k = classes.get((op, ld.get('why')))
+            if k is not None and ld.get('accept') == '0' and not flag(ld):
+                ctx.class_hits.setdefault(k['key'], []).append(c)
+                continue
             bad.setdefault(op, []).append((c, g, l))
         elif gd.get('hto') != '1':
             ctx.traces_validated += 1
@@ -78,7 +84,13 @@ def replay_finding(ctx, k, attempts=12):
 
 def check(ctx):
     # known findings first (witness replayed on the real code, judged by the acceptor)
+    classes = {}
+    ctx.class_hits = {}
     for k in getattr(ctx, 'known_static', []):
+        if k.get('class'):      # a race: cannot be replayed on demand; recognised by its class when it shows up
+            op, why = k['class'].split('/')
+            classes[(op, why)] = k
+            continue
         ok, got = replay_finding(ctx, k)
         if ok:
             ctx.known.append(f"{k['key']}: {k['what']}")
@@ -87,7 +99,10 @@ def check(ctx):
 
     stats = {}
     rows = R.run_kind(ctx, 'timed', shards=4)
-    bad = judge(ctx, rows, stats)
+    bad = judge(ctx, rows, stats, classes)
+    for key, cs in ctx.class_hits.items():
+        k = [x for x in classes.values() if x['key'] == key][0]
+        ctx.known.append(f"{key}: {k['what']} [observed in this run: {len(cs)} trace(s), e.g. {min(cs, key=len)[:400]}]")
     for op, lst in list(bad.items())[:6]:
         c, g, l = min(lst, key=lambda t: len(t[0]))
         ctx.violation(f'C16 timed acceptance: {len(lst)} observed trace(s) of {op} rejected by the proved acceptor ({" ".join(l.split()[2:])})',
@@ -107,7 +122,8 @@ def check(ctx):
              'thorough 0..12) x {complete, error, no terminal} x slow consumer x cut {none, Unsubscribe from another goroutine at a random instant, Unsubscribe inside the k-th delivery, '
              'context cancellation at a random instant}; corpus of mutant-distinguishing shapes first; run in real time, all cases of a shard concurrently; '
              'judged: acceptance of the observed timed trace by Ro.Timed.accepts (lower bounds on time, order/count relations only); non-trivial = at least one delivery observed',
-        assumptions=['Go timers and tickers fire no earlier than asked (timer armed at t with delay d fires at t\' >= t+d; k-th tick of a ticker not before k periods after its creation/reset)',
+        assumptions=['after ctx.Done() is ready the select loop of Interval/IntervalWithInitial takes at most cancelSlack = 8 more ticks before it takes it (select chooses uniformly among ready cases: m further ticks have probability <= 2^-m) - used only for the count-based clause "silent after context cancellation"',
+                     'Go timers and tickers fire no earlier than asked (timer armed at t with delay d fires at t\' >= t+d; k-th tick of a ticker not before k periods after its creation/reset)',
                      'one monotonic clock for all stamps (time.Since of one base time), truncated to integer microseconds; durations are whole microseconds',
                      'the tie is ACCEPTANCE of observed real-time traces by the proved acceptor, weaker than equality of outputs: it cannot show that the operator emits when it should, only that it never acts early, never reorders, never invents, and stops when told'],
-        extra={'level_note': 'proof on the timed model; tie = acceptance of observed timed traces (weaker than equality)', 'per_operator': stats})
+        extra={'known_classes_armed': [k['key'] for k in classes.values()], 'level_note': 'proof on the timed model; tie = acceptance of observed timed traces (weaker than equality)', 'per_operator': stats})
